@@ -50,7 +50,7 @@ TASK. Produce {n} DIFFERENT changes (numbered {nums}) to the NON-TEST source of 
 {avoid}
 For each change also write a DEMONSTRATION: a Go test file (preferred; package-internal or external test, placed next to the
 code) or a tiny program that FAILS with the change applied and PASSES on the unmodified worktree. Verify both directions yourself
-(`git stash` / `git stash pop` inside your worktree, or `git diff > p; git apply -R p`). Keep demonstrations quick (< 2 minutes).
+(`git diff > /tmp/<your-id>.diff; git apply -R /tmp/<your-id>.diff` and `git apply` to restore; do NOT use `git stash`: the stash is shared between all worktrees of the repository and other agents are working in sibling worktrees). Keep demonstrations quick (< 2 minutes).
 
 DELIVERABLES, for change number N in directory {out}/N/ :
   patch.diff   `git diff` of the change only (non-test files only; the demonstration must NOT be in the patch); must apply with
